@@ -214,6 +214,7 @@ pub fn render_frag(r: &R, fr: FnRef, sel: &str, header: &str) -> Result<(String,
         }
         "arm" => {
             // arm <scrutinee-prefix> / <pattern>
+            let rest = rest.replace('~', "::");
             let (scrut, pat) = rest.split_once(" / ").ok_or("bad arm selector")?;
             let (scrut, ord) = parse_ord(scrut);
             let mut mf = MatchFinder { hits: vec![] };
@@ -274,6 +275,18 @@ pub fn render_frag(r: &R, fr: FnRef, sel: &str, header: &str) -> Result<(String,
     }
     if let Some(pb) = r.opts.get("proof_before") {
         s.push_str(&format!("    proof {{ {} }}\n", pb));
+    }
+    if let Some(pl) = r.opts.get("prologue") {
+        s.push_str(&format!("    {}\n", pl));
+    }
+    if let Some(ep) = r.opts.get("epilogue") {
+        // statement-like fragment (assignments to the declared state): run it, then return the state
+        s.push_str(&format!("    {};\n", body));
+        if let Some(pa) = r.opts.get("proof_after") {
+            s.push_str(&format!("    proof {{ {} }}\n", pa));
+        }
+        s.push_str(&format!("    {}\n}}", ep));
+        return Ok((s, frag.span()));
     }
     if let Some(pa) = r.opts.get("proof_after") {
         let res = r.opts.get("ret").unwrap_or("r");
